@@ -6,6 +6,9 @@ import VProofs.C06
 import VProofs.C15
 import VProofs.C16
 import VProofs.Lemmas.CliSafe
+import VProofs.Lemmas.EvalCountChar
+import VProofs.Lemmas.EvalCountWord
+import VProofs.Lemmas.EvalCountLine
 /-!
 # C20 — Command-line tools agree with the library, line by line
 
@@ -84,6 +87,50 @@ theorem C20_no_crash (cfg : Cfg) (m : WModel) (hm : WFModel m) (ht : WFTags m) (
     (stdin : List Char) (clusters : List (List Nat)) :
     ∃ out, predictCli cfg fl m stdin clusters = .ok out :=
   C20L.cli_total cfg m hm ht fl p0 hp hws stdin clusters
+
+/-! ## `evaluate`: what the counting loops compute (the loops are mirrored in `VModel/Cli.lean`; here they are
+characterised without reference to any loop) -/
+
+/-- what `evaluate` hands to its counters for one line: reference and system label vectors of the same length without
+unknown labels, and one tag row per character on both sides -/
+def EvalLineWF (l : EvalLine) : Prop :=
+  l.sysB.length = l.refB.length ∧ l.refT.length = l.refB.length + 1 ∧ l.sysT.length = l.sysB.length + 1 ∧
+  (∀ b ∈ l.refB, b ≠ B.U) ∧ (∀ b ∈ l.sysB, b ≠ B.U)
+
+/-- the words of the reference that are also words of the system output (same start, same end) and carry the same tag row
+(tag rows are compared at the last character of the word) -/
+def corWords (l : EvalLine) : List (Nat × Nat) :=
+  (specTokens l.refB).filter fun se => decide (se ∈ specTokens l.sysB) && decide (l.refT[se.2 - 1]? = l.sysT[se.2 - 1]?)
+
+/-- `--metric word`: `n_cor` = number of common words with equal tags, `n_sys` / `n_ref` = number of system / reference words,
+summed over the lines -/
+theorem C20_eval_word_counts (ls : List EvalLine) (h : ∀ l ∈ ls, EvalLineWF l) :
+    wordCounts ls = ((ls.map fun l => (corWords l).length).sum,
+                     (ls.map fun l => (specTokens l.sysB).length).sum,
+                     (ls.map fun l => (specTokens l.refB).length).sum) :=
+  C20E.word_counts ls h
+
+/-- `--metric char`: true positives = positions where both sides have a word boundary, true negatives = both have none,
+false positives = only the system has one, false negatives = only the reference has one -/
+theorem C20_eval_char_counts (ls : List EvalLine) :
+    charCounts ls =
+      ((ls.map fun l => ((l.refB.zip l.sysB).filter fun x => decide (x.1 = x.2) && decide (x.2 = B.W)).length).sum,
+       (ls.map fun l => ((l.refB.zip l.sysB).filter fun x => decide (x.1 = x.2) && decide (x.2 ≠ B.W)).length).sum,
+       (ls.map fun l => ((l.refB.zip l.sysB).filter fun x => decide (x.1 ≠ x.2) && decide (x.2 = B.W)).length).sum,
+       (ls.map fun l => ((l.refB.zip l.sysB).filter fun x => decide (x.1 ≠ x.2) && decide (x.2 ≠ B.W)).length).sum) :=
+  C20E.char_counts ls
+
+/-- every line that `evaluate` counts satisfies the hypotheses of `C20_eval_word_counts`: the normaliser keeps the number of
+characters, prediction leaves no unknown label, the filters keep the lengths, and both tag tables have one row per character -/
+theorem C20_eval_line_wf (cfg : Cfg) (m : WModel) (hm : WFModel m) (ht : WFTags m) (fl : EvalFlags)
+    (p : Predictor) (hp : Predictor.new cfg m fl.predictTags = .ok p)
+    (filters : List PostFilter) (line : List Char) (e : EvalLine)
+    (he : evalLine fl p filters line = .ok e) : EvalLineWF e :=
+  C20E.line_wf cfg m hm ht fl p hp filters line e he
+
+example : EvalLineWF ⟨[B.N, B.W], [[none], [some ['x']], [none]], [B.W, B.W], [[none], [some ['x']], [none]]⟩ ∧
+    wordCounts [⟨[B.N, B.W], [[none], [some ['x']], [none]], [B.W, B.W], [[none], [some ['x']], [none]]⟩] = (1, 3, 2) := by
+  refine ⟨by unfold EvalLineWF; decide, by decide⟩
 
 /-! ## non-vacuity: the well-formed model of `C01.lean` (it has a tag model, see `C06.lean`) through `predictCli`, two
 non-empty lines and an empty one -/
